@@ -56,6 +56,9 @@ options = st.fixed_dictionaries(
 )
 
 
+LATER_OPTIONS = {"space_nodur": False, "xstaff": [False]}
+
+
 class _Ids(object):
     def __init__(self):
         self.n = 0
@@ -67,6 +70,7 @@ class _Ids(object):
 
 def render(model, opt):
     """Return (mei text, expected).  expected = {"parts": [...], "repeats": [...], "endings": [...]}."""
+    opt = dict(LATER_OPTIONS, **opt)  # replay files written before an option existed
     ids = _Ids()
     d = model.d
     nparts = opt["nparts"]
